@@ -8,25 +8,31 @@ EXTENDS Integers, Sequences, FiniteSets, TLC, Json, IOUtils
 
 Trace == ndJsonDeserialize(IOEnv.TRACE)
 
-VARIABLES l, tid, kind, plan, began, ended, res, clock
-mvars == <<l, tid, kind, plan, began, ended, res, clock>>
+VARIABLES l, tid, kind, plan, began, ended, res, clock,
+          ids,      \* correlation ids of the requests written on the scenario's Conn so far
+          dupid     \* a request was written with an id already used on this Conn
+mvars == <<l, tid, kind, plan, began, ended, res, clock, ids, dupid>>
 
 Init == l = 1 /\ tid = "" /\ kind = "" /\ plan = <<>> /\ began = <<>> /\ ended = <<>> /\ res = <<>> /\ clock = 0
+        /\ ids = {} /\ dupid = FALSE
 
 Upd(e) ==
   CASE e.ev = "cfg" ->
          /\ tid' = e.id /\ kind' = e.kind
          /\ plan' = [i \in DOMAIN e.ops |-> e.ops[i]]
-         /\ began' = <<>> /\ ended' = <<>> /\ res' = <<>> /\ clock' = 0
+         /\ began' = <<>> /\ ended' = <<>> /\ res' = <<>> /\ clock' = 0 /\ ids' = {} /\ dupid' = FALSE
     [] e.ev = "opbegin" ->
          /\ began' = e.o :> clock @@ began /\ clock' = clock + 1
-         /\ UNCHANGED <<tid, kind, plan, ended, res>>
+         /\ UNCHANGED <<tid, kind, plan, ended, res, ids, dupid>>
     [] e.ev = "opend" ->
          /\ ended' = e.o :> clock @@ ended /\ clock' = clock + 1
          /\ res' = e.o :> [result |-> e.result, own |-> e.own, fresh |-> e.freshResult, freshOwn |-> e.freshOwn,
                            closed |-> e.closed, nrec |-> e.nrec, code |-> e.code] @@ res
-         /\ UNCHANGED <<tid, kind, plan, began>>
-    [] OTHER -> UNCHANGED <<tid, kind, plan, began, ended, res, clock>>
+         /\ UNCHANGED <<tid, kind, plan, began, ids, dupid>>
+    [] e.ev = "reqbegin" ->
+         /\ ids' = ids \cup {e.id} /\ dupid' = (dupid \/ e.id \in ids)
+         /\ UNCHANGED <<tid, kind, plan, began, ended, res, clock>>
+    [] OTHER -> UNCHANGED <<tid, kind, plan, began, ended, res, clock, ids, dupid>>
 
 Next == l <= Len(Trace) /\ l' = l + 1 /\ Upd(Trace[l])
 Spec == Init /\ [][Next]_mvars
@@ -40,6 +46,9 @@ CleanBefore(b) == \A a \in DOMAIN res : After(a, b) => res[a].result \in {"respo
 
 \* C06: a successful call returns the answer to its own (payload-tagged) request
 C06_OwnResponse == \A o \in DOMAIN res : res[o].result = "response" => res[o].own
+
+\* the mechanism behind it: requests written on one Conn carry pairwise distinct correlation ids
+C06_UniqueIds == ~dupid
 
 \* C11: after broker-reported errors the next operation behaves as on a fresh connection
 C11_NextAsFresh ==
@@ -55,6 +64,13 @@ C11_ErrorReported ==
 \* after a transport-level or framing error every later operation fails
 C11_FailedStaysFailed ==
   \A a, b \in DOMAIN res : (Failed(a) /\ After(a, b)) => Failed(b)
+\* ... because the Conn is closed by the failing operation: nothing is sent or parsed on it afterwards, so no bytes
+\* left over from the failed exchange can be taken for (part of) a later response
+C11_TransportErrorCloses ==
+  \A a \in DOMAIN res : (res[a].result = "ioError" /\ CleanBefore(a)) => res[a].closed
+\* a response that stalls past the deadline in the middle of its body is a transport-level error
+C11_StallIsError ==
+  \A a \in DOMAIN res : (FaultOf(a).stall > 0 /\ CleanBefore(a)) => res[a].result = "ioError"
 \* a framing error is never produced by the library's own reading
 C11_NoSpuriousNoProgress ==
   kind \in {"c11", "c06"} => \A o \in DOMAIN res : (FaultOf(o).cut < 0 /\ CleanBefore(o)) => res[o].result # "noProgress"
